@@ -49,6 +49,7 @@ func init() {
 			ruleReaderDoesNotWait(c)
 			ruleReplyKeyWhole(c, c.M.CPending, "client")
 			ruleSettleCopiesBoth(c)
+			ruleCallbackWrappersGuarded(c)
 			ruleNullErrorIsAbsent(c)
 			ruleRecvBufferNotRetained(c, "PROV.recvbuf")
 			c.Clause("C04-D5")
@@ -69,8 +70,10 @@ func init() {
 			ruleTokenClose(c)
 			ruleFirstWaiterReleases(c)
 			ruleReaderDoesNotWait(c)
+			ruleSendFailureReported(c)
 			ruleLockBalanced(c, "client")
 			ruleBatchWaitsAll(c)
+			ruleCallbackWrappersGuarded(c)
 			ruleAccessorsDoNotCallBack(c, "TABLE.default", c.M.Pkg)
 			rulePendingTablesNeverReplaced(c, c.M.CPending)
 			ruleDeliveryLoopVisitsAll(c)
